@@ -49,6 +49,8 @@ RULE = ("inputs = corpus of 12 valid requests / 12 valid responses, each either 
         "Every 20th input is a complete response whose status line has no reason phrase (with / without the trailing blank), an "
         "unlisted reason or a lower-case version, over codes {299,308,418,422,451,599,200,404,500,226,207,102} (quick) / every "
         "code 100..599 (thorough). "
+        "Every 20th input is a followed redirect (300/301/302/303/307) whose Location has an out-of-range / huge / zero / signed / "
+        "non-ASCII-digit port or an odd authority (userinfo, empty host, IPv6, trailing dot), serviced for >= 8 passes afterwards. "
         "Non-trivial = not a control and hio received the hostile bytes; distinct = by role and byte string.")
 ASSUMPTIONS = [
     "plain TCP on 127.0.0.1 only (no TLS); peers never close abortively during a case (socket-level faults are C10's subject)",
@@ -65,7 +67,7 @@ TIMEOUT_S = {"quick": 280, "thorough": 1700}
 PEAK_COUNTERS = ("rounds_max",)
 REQUIRE = {"server_cases": 2000, "client_cases": 1000, "service_rounds": 30000, "hostile_bytes_received_by_hio": 300000,
            "sibling_exact_responses": 1200, "reject_inputs_judged": 150, "controls_ok": 100, "fragmented_inputs": 1000,
-           "status_lines_without_or_with_unlisted_reason": 200, "complete_responses_required_queued": 100,
+           "status_lines_without_or_with_unlisted_reason": 200, "redirects_with_odd_port_or_authority": 200, "scheduled_json_and_sse_bodies": 200, "complete_responses_required_queued": 100,
            "lines_httping": 150, "lines_serving": 150, "lines_clienting": 150}
 
 _state = {"ports": None, "cov": False}
@@ -76,7 +78,7 @@ def cases(tier, seed, shard, nshards):
     rng = random.Random(f"{seed}:C16:{shard}")
     n = (4800 if tier == "quick" else 200000) // nshards
     sts = gh.status_schedule(tier)      # status lines without / with an unlisted reason phrase, on a fixed schedule
-    nst = 0
+    nst = nloc = nbody = 0
     for i in range(n):
         r = rng.random()
         role = "wsgi" if r < 0.40 else ("bare" if r < 0.65 else "client")
@@ -86,6 +88,14 @@ def cases(tier, seed, shard, nshards):
             code, variant = sts[(shard * ((n + 19) // 20) + nst) % len(sts)]
             nst += 1
             inp = gh.gen_status_case(code, variant, http10=rng.random() < 0.25)
+        elif i % 20 == 3:
+            role = "client"
+            inp = gh.gen_location_case(shard * ((n + 19) // 20) + nloc)     # redirects with odd ports / authorities
+            nloc += 1
+        elif i % 20 == 4:
+            role = "client"
+            inp = gh.gen_body_case(shard * ((n + 19) // 20) + nbody)     # malformed / deeply nested JSON and SSE bodies
+            nbody += 1
         else:
             inp = gh.gen_input(rng, is_request=role != "client", allow_big=(tier == "thorough" or rng.random() < 0.6), force=force)
         total = gh.seglen(inp["segs"])
@@ -112,7 +122,7 @@ def cases(tier, seed, shard, nshards):
         case.update({"role": role, "cuts": cuts, "sched": sched, "eof": rng.random() < 0.3})
         if role == "client":
             case["method"] = rng.choice(["GET", "GET", "GET", "HEAD", "POST"])
-            case["dictable"] = rng.random() < 0.3
+            case["dictable"] = inp.get("dictable", rng.random() < 0.3)
         if (case["control"] or "queued" in case) and case.get("method") == "HEAD":
             case["method"] = "GET"      # the corpus responses carry bodies: they answer GET/POST, not HEAD
         if case["control"] and (role != "client" or case["shape"][0] == "control:redirect"):
@@ -437,7 +447,7 @@ def run_client(case, ctx):
             if case["control"] and case["shape"][0] == "control:close_delim" and not case["eof"]:
                 must = False
             waiting = must or full_at is None
-            if not waiting and rnd >= full_at + 5:
+            if not waiting and rnd >= full_at + 8:      # keep servicing: a redirect only shows on the passes after it
                 break
             if rnd + 1 >= nrounds and not must:
                 break
@@ -474,6 +484,11 @@ def run_client(case, ctx):
                 ctx.violation("malformed-response-not-flagged",
                               f"complete response with an invalid status line queued with errored=False "
                               f"(status={first['status']!r}); {describe(case, data)!r}")
+        if case["shape"][0] == "location_sched":
+            ctx.count("redirects_with_odd_port_or_authority")
+            ctx.count("client_passes_after_redirect_response", rnd - (full_at if full_at is not None else rnd))
+        if case["shape"][0] == "body_sched":
+            ctx.count("scheduled_json_and_sse_bodies")
         if "queued" in case:
             ctx.count("status_lines_without_or_with_unlisted_reason")
             ctx.seen("status_code_variants", case["shape"] + [bytes(data[:16])])
